@@ -92,10 +92,15 @@ fn extension_group(input: Input<'_>) -> ParserResult<'_, SequenceComponent> {
                     SequenceComponent::ComponentsOf(c) => components_of.push(c),
                 }
             }
+            // a group may consist of `COMPONENTS OF` only: name it after the referenced type then
+            let first_name = members
+                .first()
+                .map(|m| m.name.clone())
+                .or_else(|| components_of.first().cloned())
+                .unwrap_or_default();
             SequenceComponent::Member(SequenceOrSetMember {
                 is_recursive: false,
-                name: String::from(INTERNAL_EXTENSION_GROUP_NAME_PREFIX)
-                    + &members.first().unwrap().name,
+                name: String::from(INTERNAL_EXTENSION_GROUP_NAME_PREFIX) + &first_name,
                 tag: None,
                 ty: ASN1Type::Sequence(SequenceOrSet {
                     components_of,
